@@ -52,6 +52,13 @@ var DriverCfg string
 
 func (t *TraceWriter) Write(ev M, st any) {
 	line := M{"ev": ev, "st": st}
+	// the member of a failed multi-message transaction is logged as "TxFailed"; the event's own
+	// name travels beside the event (not inside it: event records have a fixed shape), so that a
+	// behaviour cut out of this trace re-executes the same messages in the same block shape
+	if o, ok := ev["_orig"]; ok {
+		line["orig"] = o
+		delete(ev, "_orig")
+	}
 	if n, _ := ev["name"].(string); n == "Init" {
 		line["cfg"] = DriverCfg
 	}
